@@ -2,9 +2,11 @@
   Driver/Kinds/Pktz.lean — case kinds of group `pktz`: C07 (sequencer) and C06 (packetizer).
 
   c07.run    <f s | r r0> <ops: string of n/r, `-` = none>  =>  <count> <result>*
-  c07.hist   <start> <goroutines>  =>  <count> (<g> <n|r> <before> <after> <result>)*
+  c07.hist   <start> <goroutines> <fnv of the observation, for the distinct-case count>  =>  <count> (<g> <n|r> <before> <after> <result>)*
   c07.synth / c07.synthbad   as c07.hist, on synthesized histories (self-test of the checker:
              linearizable by construction must be accepted, corrupted ones rejected)
+  c07.synthsmall  random histories of ≤ 7 calls: the greedy search must agree with brute force
+             (`wf` reports how many of them are linearizable)
   c07.facts  sequencer.go  =>  <6 bools> <maxInitialRandomSequenceNumber>
 
   c06.hist   <mtu> <pt> <ssrc> <ts0> <seqStart> <payloader name> <n> op*  =>  <n> opobs*
@@ -66,7 +68,7 @@ def rdCall : Rd Pred.C07.Call := do
 /-- no model observation to compare with (the schedule is not an input): `corr` is vacuous, the
     verdict is the linearizability check of what the real code did -/
 def c07hist : Handler := fun inp obs =>
-  match (do let s ← Rd.u16; let n ← Rd.nat; Rd.done; pure (s, n) : Rd (UInt16 × Nat)) inp,
+  match (do let s ← Rd.u16; let n ← Rd.nat; let _ ← Rd.nat; Rd.done; pure (s, n) : Rd (UInt16 × Nat)) inp,
         (do let h ← listTR rdCall; Rd.done; pure h : Rd (List Pred.C07.Call)) obs with
   | some ((s, _), _), some (h, _) =>
     some { corr := true, pred := Pred.C07.linearizable (SeqState.newFixed s) h }
@@ -77,6 +79,17 @@ def c07histBad : Handler := fun inp obs =>
   match c07hist inp obs with
   | some v => some { v with pred := !v.pred }
   | none => none
+
+/-- self-test of the checker on tiny histories: the greedy search agrees with brute force -/
+def c07histSmall : Handler := fun inp obs =>
+  match (do let s ← Rd.u16; let n ← Rd.nat; let _ ← Rd.nat; Rd.done; pure (s, n) : Rd (UInt16 × Nat)) inp,
+        (do let h ← listTR rdCall; Rd.done; pure h : Rd (List Pred.C07.Call)) obs with
+  | some ((s, _), _), some (h, _) =>
+    if h.length > 8 then none else
+    let a := Pred.C07.linearizable (SeqState.newFixed s) h
+    let b := Pred.C07.linearizableBrute (SeqState.newFixed s) h
+    some { corr := true, pred := a == b, wf := b }
+  | _, _ => none
 
 def rdFacts : Rd Pred.C07.Facts := do
   let a ← Rd.bool; let b ← Rd.bool; let c ← Rd.bool; let d ← Rd.bool; let e ← Rd.bool; let f ← Rd.bool
@@ -141,5 +154,5 @@ def c06hist : Handler :=
 
 def handlers : List (String × Handler) :=
   [("c07.run", c07run), ("c07.hist", c07hist), ("c07.facts", c07facts), ("c07.synth", c07hist),
-   ("c07.synthbad", c07histBad), ("c06.hist", c06hist)]
+   ("c07.synthbad", c07histBad), ("c07.synthsmall", c07histSmall), ("c06.hist", c06hist)]
 end Rtp.Kinds.Pktz
